@@ -182,7 +182,7 @@ static void subEntity(const std::string &name, UInt &v, const Bit &c, bool parti
 	if (partition) area.setPartition(true);
 	UInt a = v;
 	HCL_NAMED(a);
-	IF (c) a = a + 3; ELSE a = a ^ 5;
+	IF (c) a = a + 1; ELSE a = a ^ 1;
 	a = reg(a, 0);
 	if (depth > 0) {
 		subEntity(name + "_in0", a, c, false, depth - 1);
@@ -400,6 +400,19 @@ static std::vector<HandDesign> handDesigns() {
 			pinOut(fifo.empty()).setName("empty");
 		}
 		fifo.generate();
+	}});
+
+	res.push_back({"h_small_hier", "partition", "ghdl", [] {
+		// small enough for the verified certificate checker: 3 input bits, 6 register bits
+		UInt x = pinIn(2_b).setName("x");
+		Bit c = pinIn().setName("c");
+		UInt v = x;
+		subEntity("sa", v, c, true, 0);
+		UInt w = x ^ v;
+		subEntity("sb", w, ~c, true, 0);
+		UInt u = v + w;
+		subEntity("sc", u, c, false, 0);
+		pinOut(v).setName("v"); pinOut(w).setName("w"); pinOut(u).setName("u");
 	}});
 
 	res.push_back({"h_wide_logic", "single", "default", [] {
